@@ -152,7 +152,25 @@ def impl(case):
     return res
 
 
+def _d36(case):
+    """astropy: the inverse of a bare Scale/Multiply carries the forward bounding box mapped through the transform WITHOUT sorting the
+    limits, so a negative factor gives an empty interval (lower > upper) and every inverse evaluation is masked (finding D36)"""
+    if case.get("kind") != "api" or not case.get("box"):
+        return False
+    trs = [t for t in case["trs"] if t is not None]
+    return len(trs) == 1 and trs[0][0] == "scale" and G.fr(trs[0][1]) < 0
+
+
 def oracle(case, res):
+    out = _oracle(case, res)
+    if _d36(case):
+        out = [("D36", what) for _, what in out]
+        if not out and all(v.get("ok") and all(x == "nan" for x in v["ok"]) for v in res.get("inv", [])):
+            out = [("D36", "invert returns NaN for every world value: the analytic inverse carries an empty bounding box")]
+    return out
+
+
+def _oracle(case, res):
     out = []
     k = case["kind"]
     if k == "toindex":
@@ -252,6 +270,8 @@ def compare(case, res, resp):
     if not case.get("box"):
         if m["p2w"] != res["p2w"]:
             return "pixel_to_world_values impl %s model %s" % (res["p2w"], m["p2w"])
+    if _d36(case):
+        return None
     if m["w2p"] != res["w2p"] and all(r.get("err") != "notImpl" or mm.get("err") != "notImpl" for r, mm in zip(res["w2p"], m["w2p"])):
         # the iterative fall-back (no analytic inverse) is numerical: only the analytic answers are compared exactly
         if all("err" not in mm for mm in m["w2p"]):
